@@ -6,10 +6,11 @@ what we ran to confirm it)."""
 import glob, json, os, shutil, sys
 
 root = sys.argv[1] if len(sys.argv) > 1 else "/tmp/mut"
+tag = sys.argv[2] if len(sys.argv) > 2 else ""       # e.g. "r3": ids become Cxx-r3mK
 dst = os.path.join(os.path.dirname(os.path.abspath(__file__)), "..", "seeded")
 for d in sorted(glob.glob(os.path.join(root, "out_C*", "m*"))):
     prop = os.path.basename(os.path.dirname(d))[4:]
-    mid = "%s-%s" % (prop, os.path.basename(d))
+    mid = "%s-%s%s" % (prop, tag, os.path.basename(d))
     cj = os.path.join(d, "confirm.json")
     if not os.path.exists(cj):
         print(mid, "not confirmed yet"); continue
